@@ -684,6 +684,11 @@ func (h *harness) idctSection() {
 		r.Op(op, ans)
 		if kv["inrange"] == "1" {
 			r.Count("idct:in-range")
+			if kv["fit"] == "1" {
+				r.Count("idct:in-range:lanes-fit(covered by idct_block_variants_agree)")
+			} else {
+				r.Count("idct:in-range:lanes-do-not-fit(tested only)")
+			}
 			if haveAvx && kv["p"] != kv["a"] {
 				r.Fail("jpeg-idct:in-range-variants-differ", "the portable and AVX2 IDCT disagree on a block whose exact reconstruction stays inside -512..511", cmd)
 			}
